@@ -23,7 +23,7 @@ RULE = ("every IR function of the families L1 (all 1-instruction value programs 
         "reference interpreter's return value, final bytes of every global and external-call trace; distinct non-trivial = distinct "
         "(target, instruction-feature set of the function, returned value, global memory)")
 ASSUMPTIONS = [
-    "oracle: vf/sem/irinterp.py Interp run on the very module handed to ir_to_object (after ppci.api.optimize), pointer size 8 (x86_64) / 4 (riscv); "
+    "oracle: vf/sem/irinterp.py Interp run on the very module handed to ir_to_object (after ppci.api.optimize), pointer size 8 (x86_64) / 4 (riscv, arm); "
     "vectors on which the reference run is undefined, exceeds the step horizon or is unsupported are not compared",
     "executors: x86_64 natively through vf/sem/x86exec.py (mmap RWX + ctypes, forked child per batch); riscv and riscv:rvc on vf/sem/rv32.py, whose decoder "
     "agrees with llvm-mc on all 49152 16-bit encodings and a 34368-word lattice and whose execution agrees with gcc on 3513 runs of clang-compiled "
@@ -44,10 +44,12 @@ ASSUMPTIONS = [
     "calling convention is ppci's own for the target: x86_64 System V; riscv arguments in x12..x17, result in x10 (ppci does not use a0/a1 for arguments); "
     "narrow arguments are passed sign/zero-extended, a narrow result is compared modulo 2^width; on riscv sp and the callee-saved registers x8, x9, x18-x27 "
     "must be preserved",
-    "external functions are host stubs (x86_64: trampoline inside the code page to a ctypes callback; riscv: emulator hook) computing the reference "
+    "external functions are host stubs (x86_64: trampoline inside the code page to a ctypes callback; riscv, arm: emulator hook) computing the reference "
     "interpreter's default_external; riscv code and data are linked into two separate memory images so that the (separately checked, C13) "
     "relaxation/alignment defects of the linker do not mask code generation",
     "failures of ppci.api.optimize (C02/C03), of ir_to_object (C29) and of link (C11-C13) are counted and listed, not judged here",
+    "arm:thumb only: a failing function whose machine code contains a compare, then a flag-setting instruction, then the conditional branch (found by a linear "
+    "sweep with the reference decoder after the oracle has established the failure) is keyed 'thumb-flags-clobbered-between-compare-and-conditional-branch'",
     "every reported mismatch is re-derived from its witness in a fresh python process before it is reported; candidates that do not reproduce are counted",
 ]
 CLAIM = {"text": "inside the enumerated bound, x86_64, riscv, riscv:rvc, arm and arm:thumb machine code generated by ppci returns the value, leaves the global memory and makes "
@@ -622,6 +624,10 @@ def mechanisms(m, target):
                     add("narrow-intermediate-used-without-reduction-to-its-width")
                 elif t is ir.Const and target == "riscv:rvc" and i.ty.is_integer and isinstance(i.value, int) and i.value < -0x20000:
                     add("rvc-constant-pattern-for-large-negative-values")
+    phi = "value-derived-from-a-loop-phi-computed-after-the-phi-register-update"
+    if isarm and phi in found and len(found) > 1:      # on arm a function that also shows an ARM-specific trigger is filed under that one (a u8 loop counter
+        found.remove(phi)                              # that wraps fails through the missing narrow reduction, whether or not the phi ordering is right)
+        found.append(phi)
     if "~thumb-signed-narrow-load-zero-extends" in found:          # lowest priority: named only when no other trigger is present
         found.remove("~thumb-signed-narrow-load-zero-extends")
         found.append("thumb-signed-narrow-load-zero-extends")
